@@ -73,15 +73,22 @@ TStat == IsEvent("Stat") /\ LET e == Log[l]
                                 m == Len(e.w)  W == SumTo(e.w, Len(e.w))  wmax == MaxTo(e.w, Len(e.w))
                                 kk == IF e.what = "merge" THEN Min(e.k, e.k2) ELSE e.k
                                 den == W * wmax
+                                cnum == Min(kk * wmax, W)           \* c = cnum / wmax
                             IN
   /\ NoThrow(e)
-  /\ Chk("stat-driver-range", W <= 40 /\ wmax <= 4 /\ e.T <= 2000 /\ Len(e.count) = m)
-  /\ \A i \in 1..m :
-       LET num == Min(kk * e.w[i] * wmax, e.w[i] * W)
-           dev == Abs(e.count[i] * den - e.T * num)
-       IN /\ Chk("count-range", e.count[i] >= 0 /\ e.count[i] <= e.T)
-          /\ Chk("inclusion-proportional-to-weight",
-                 dev <= den \/ (dev - den <= 46340 /\ (dev - den) * (dev - den) <= 36 * e.T * num * (den - num)))
+  /\ Chk("stat-driver-range", W <= 40 /\ wmax <= 4 /\ e.T <= 2000 /\ Len(e.counts) = Len(e.idioms) /\ Len(e.sizes) = Len(e.idioms))
+  \* every traversal idiom (get_result, iterator loop, range-for, copied iterators / std algorithms) separately
+  /\ \A j \in 1..Len(e.idioms) :
+       /\ Chk("stat-driver-range", Len(e.counts[j]) = m)
+       /\ \A i \in 1..m :
+            LET num == Min(kk * e.w[i] * wmax, e.w[i] * W)
+                dev == Abs(e.counts[j][i] * den - e.T * num)
+            IN /\ Chk("count-range", e.counts[j][i] >= 0 /\ e.counts[j][i] <= e.T)
+               /\ Chk("inclusion-proportional-to-weight",
+                      dev <= den \/ (dev - den <= 46340 /\ (dev - den) * (dev - den) <= 36 * e.T * num * (den - num)))
+       \* mean sample size = c: sum of the sizes over T runs within 6 sigma (per-run variance <= 1/4) + 1 of T * c
+       /\ LET sdev == Abs(e.sizes[j] * wmax - e.T * cnum) IN
+            Chk("mean-sample-size=c", sdev <= wmax \/ (sdev - wmax) * (sdev - wmax) <= 9 * e.T * wmax * wmax)
   /\ UNCHANGED <<obj, blob>>
 
 TInit == obj = <<>> /\ blob = <<>> /\ l = 1
